@@ -140,24 +140,21 @@ def step (ts : List String) : String :=
             match takeDonor r3 with
             | none => "bad-donor"
             | some (pd, r4) =>
-              let dn := assignDonor fv pne pd
               if kind == "pfrac" then
-                match toArrays [toArray fv pne, toArray fv pte, dn] with
-                | some (sh, [ne, te, nD]) =>
-                    let res := profileFractional genFlags bdSolve Z S A C (pB donor) ne te nD
+                match callFractional genFlags bdSolve Z S A C (pB donor) fv pne pte pd with
+                | some (sh, ne, te, res) =>
                     shapeStr sh ++ " " ++ fFs ((ne.zip (te.zip res)).flatMap fun x =>
                       [x.1, x.2.1] ++ (List.range (Z + 1)).map x.2.2)
-                | _ => "err"
+                | none => "err"
               else
                 match takeProfile r4 with
                 | none => "bad-dens"
                 | some (pdens, _) =>
-                  match toArrays [toArray fv pdens, toArray fv pne, toArray fv pte, dn] with
-                  | some (sh, [dens, ne, te, nD]) =>
-                      let res := profileFromDensity genFlags bdSolve Z S A C (pB donor) dens ne te nD
+                  match callFromDensity genFlags bdSolve Z S A C (pB donor) fv pdens pne pte pd with
+                  | some (sh, ne, te, res) =>
                       shapeStr sh ++ " " ++ fFs ((ne.zip (te.zip res)).flatMap fun x =>
                         [x.1, x.2.1] ++ (List.range (Z + 1)).map x.2.2)
-                  | _ => "err"
+                  | none => "err"
   | _ => "bad-op"
 
 def main : IO UInt32 := do
